@@ -1088,6 +1088,7 @@ func (s *Server) RemoteSync(
 	*resp = MsgSrvSync{
 		Time:      s.Source.Time(nil),
 		QueueTick: s.Source.QueueTick(),
+		MachTick:  s.Source.MachineTick(),
 	}
 	s.log("RemoteSync: [%v]", resp.Time)
 
